@@ -7,16 +7,6 @@ import CoseModel.Generated.Facts
 open CoseModel
 namespace C13
 
-theorem facts_labels :
-    Facts.consts.lookup "HeaderLabelAlgorithm" = some 1 ∧ Facts.consts.lookup "HeaderLabelCritical" = some 2 ∧
-    Facts.consts.lookup "HeaderLabelContentType" = some 3 ∧ Facts.consts.lookup "HeaderLabelKeyID" = some 4 ∧
-    Facts.consts.lookup "HeaderLabelIV" = some 5 ∧ Facts.consts.lookup "HeaderLabelPartialIV" = some 6 ∧
-    Facts.consts.lookup "HeaderLabelCounterSignature" = some 7 ∧
-    Facts.consts.lookup "HeaderLabelCounterSignature0" = some 9 ∧
-    Facts.consts.lookup "HeaderLabelCounterSignatureV2" = some 11 ∧
-    Facts.consts.lookup "HeaderLabelCounterSignature0V2" = some 12 ∧
-    Facts.consts.lookup "HeaderLabelType" = some 16 := by decide
-
 /-- a label's normal form does not depend on which Go integer type spells it -/
 theorem normalize_spelling (k k' : IntKind) (v : Int) :
     normalizeLabel (.int k v) = normalizeLabel (.int k' v) := rfl
